@@ -163,6 +163,98 @@ impl Space for C03Space {
     }
 }
 
+/// CLI slice: the same construction through the real binary — `list` JSON (name, line, column,
+/// attributes, order) and the content as a `check-lua` script with `check-lua-pattern="[\s\S]*"` (the
+/// parenthesis-free spelling of `(?s).*`, which a Markdown `( )` title can hold)
+/// receives it (the property's two observation points).
+fn cli_slice(cfg: &Cfg, kit: &'static Kit, segs: &[Seg], echo: &str, sink: &Sink) {
+    use crate::cli;
+    thread_local! { static REPO: cli::Scratch = cli::Scratch::repo("c03cli"); }
+    let file = kit.files[0];
+    let mut r = Renderer::new(kit, false);
+    r.extra_attrs = format!(" check-lua=\"{echo}\" check-lua-pattern=\"[\\s\\S]*\"");
+    for s in segs {
+        r.seg(s);
+    }
+    let rendered = r.finish();
+    if rendered.blocks.is_empty() {
+        return;
+    }
+    let input = json!({"cli": true, "grammar": kit.grammar, "segs": segs.iter().map(langkit::seg_json).collect::<Vec<_>>()});
+    REPO.with(|repo| {
+        repo.clear();
+        repo.write(file, &rendered.text);
+        sink.execs(2);
+        let list = cli::blockwatch(&cfg.bin, &repo.dir, &["list"], None, &[], 30);
+        let run = cli::blockwatch(&cfg.bin, &repo.dir, &[], None, &[], 30);
+        let describe = |extra: &str| format!("{file}: {extra}\n--- file ---\n{}", rendered.text);
+        let listed: Value = serde_json::from_str(&list.stdout).unwrap_or(Value::Null);
+        let items = listed[file].as_array().cloned().unwrap_or_default();
+        let mut ok = list.code == Some(0) && items.len() == rendered.blocks.len();
+        if ok {
+            for (exp, got) in rendered.blocks.iter().zip(&items) {
+                let pos = rendered.position(exp.lt);
+                let name_ok = if exp.name.is_empty() { got["name"] == "(unnamed)" } else { got["name"] == exp.name.as_str() && got["attributes"]["name"] == exp.name.as_str() };
+                ok &= name_ok && got["line"].as_u64() == Some(pos.0 as u64) && got["column"].as_u64() == Some(pos.1 as u64) && got["attributes"]["check-lua"] == echo;
+            }
+        }
+        sink.outcome(format!("cli:{}:list:{}", kit.grammar, if ok { "agree" } else { "differ" }));
+        if !ok {
+            sink.fail(format!("C03:cli:list-differs:{}", kit.grammar), describe(&format!("`list` prints {}", list.stdout)), input.clone());
+        }
+        // Content: one check-lua diagnostic per block carrying "[" + content + "]".
+        match run.diags() {
+            Ok(diags) => {
+                for exp in rendered.blocks.iter().filter(|b| !b.name.is_empty()) {
+                    let pos = rendered.position(exp.lt);
+                    let want = rendered.content(exp);
+                    let got = diags.iter().find(|d| d.code == "check-lua" && d.range.0 == pos.0 as u64 && d.range.1 == pos.1 as u64).and_then(|d| d.data.get("lua_error").and_then(Value::as_str).map(str::to_string));
+                    let acceptable = [format!("[{want}]"), format!("[{}]", want.strip_prefix('\n').unwrap_or(want))];
+                    if !got.as_ref().is_some_and(|g| acceptable.contains(g)) {
+                        sink.fail(format!("C03:cli:content-differs:{}", kit.grammar), describe(&format!("block {} should receive content {want:?}, the script got {got:?}", exp.name)), input.clone());
+                    }
+                }
+            }
+            Err(e) => sink.fail(format!("C03:cli:unreadable-report:{}", kit.grammar), describe(&e), input.clone()),
+        }
+    });
+}
+
+struct CliSpace {
+    cfg: Cfg,
+    kit: &'static Kit,
+    alphabet: Vec<Seg>,
+    echo: String,
+}
+
+impl Space for CliSpace {
+    type State = Vec<u16>;
+    fn init(&self) -> Vec<Vec<u16>> {
+        vec![Vec::new()]
+    }
+    fn succ(&self, state: &Vec<u16>) -> Vec<Vec<u16>> {
+        if state.len() >= 2 {
+            return Vec::new();
+        }
+        let segs: Vec<Seg> = state.iter().map(|&i| self.alphabet[i as usize]).collect();
+        let families = Renderer::open_families(self.kit, &segs);
+        self.alphabet
+            .iter()
+            .enumerate()
+            .filter(|(_, s)| Renderer::applicable(self.kit, &families, MAX_NESTING, false, segs.last(), s))
+            .map(|(i, _)| {
+                let mut next = state.clone();
+                next.push(i as u16);
+                next
+            })
+            .collect()
+    }
+    fn check(&self, state: &Vec<u16>, sink: &Sink) {
+        let segs: Vec<Seg> = state.iter().map(|&i| self.alphabet[i as usize]).collect();
+        cli_slice(&self.cfg, self.kit, &segs, &self.echo, sink);
+    }
+}
+
 /// Kit self-test: every tag-free segment alone (and all of them together) yields no block, no error.
 pub fn kit_self_test(sink: &Sink) -> bool {
     let mut ok = true;
@@ -194,6 +286,17 @@ pub fn kit_self_test(sink: &Sink) -> bool {
         }
     }
     ok
+}
+
+fn echo_script() -> &'static str {
+    static S: std::sync::OnceLock<(crate::cli::Scratch, String)> = std::sync::OnceLock::new();
+    &S.get_or_init(|| {
+        let s = crate::cli::Scratch::new("c03echo");
+        s.write("echo.lua", "function validate(ctx, content)\n  return \"[\" .. content .. \"]\"\nend\n");
+        let p = s.path("echo.lua").display().to_string();
+        (s, p)
+    })
+    .1
 }
 
 pub fn run(cfg: &Cfg, sink: &Arc<Sink>) -> Report {
@@ -228,6 +331,23 @@ pub fn run(cfg: &Cfg, sink: &Arc<Sink>) -> Report {
                 false,
             ));
         }
+        // CLI slice over a reduced alphabet (bare layouts, every tag set, one code line, one decoy).
+        let cli_alphabet: Vec<Seg> = alphabet
+            .iter()
+            .copied()
+            .filter(|s| match s {
+                Seg::Code(i) | Seg::Decoy(i) => *i == 0,
+                Seg::Comment { layout, tags, .. } => matches!(tags, langkit::Tags::Open | langkit::Tags::Close | langkit::Tags::Pair | langkit::Tags::CloseOpen) && matches!(layout, langkit::Layout::Bare | langkit::Layout::Multi(1)),
+            })
+            .collect();
+        report.phase(engine::explore(
+            &format!("{} CLI slice (list JSON + echoed content)", kit.grammar),
+            &format!("all segment sequences of length ≤2 over {} segments through the real binary", cli_alphabet.len()),
+            CliSpace { cfg: cfg.clone(), kit, alphabet: cli_alphabet, echo: echo_script().to_string() },
+            sink,
+            cfg.threads,
+            false,
+        ));
         if kit.forms.iter().any(|f| f.family != 0) {
             report.phase(engine::explore(
                 &format!("{} cross-family pairs ({})", kit.grammar, kit.files[0]),
@@ -242,11 +362,16 @@ pub fn run(cfg: &Cfg, sink: &Arc<Sink>) -> Report {
     report
 }
 
-pub fn replay(_cfg: &Cfg, input: &Value, sink: &Arc<Sink>) {
+pub fn replay(cfg: &Cfg, input: &Value, sink: &Arc<Sink>) {
     let Some(kit) = input["grammar"].as_str().and_then(langkit::kit) else {
         sink.machinery("replay: unknown grammar");
         return;
     };
+    if input.get("cli").is_some() {
+        let segs: Vec<Seg> = input["segs"].as_array().map(|a| a.iter().filter_map(langkit::seg_from_json).collect()).unwrap_or_default();
+        cli_slice(cfg, kit, &segs, echo_script(), sink);
+        return;
+    }
     let file = input["file"].as_str().unwrap_or(kit.files[0]).to_string();
     let segs: Vec<Seg> = input["segs"].as_array().map(|a| a.iter().filter_map(langkit::seg_from_json).collect()).unwrap_or_default();
     check_segs(kit, &file, &segs, input["cross_family"].as_bool().unwrap_or(false), sink);
